@@ -360,6 +360,7 @@ def _run_history(desc, props=("C03", "C05", "C09")):
                     if hit:
                         fired[0] = (bkind, key)
                 if hit:
+                    H.interrupt_sent = True
                     signal.pthread_kill(main_ident, signal.SIGINT)
                     released.wait(0.2)
 
